@@ -573,6 +573,12 @@ func (g *Gen) funcLit(nparams int, vararg bool, ret Kind) Expr {
 		}
 		body.Stmts = append(body.Stmts, CallSN("emit", args...))
 	}
+	if nparams > 0 && g.R.Intn(5) == 0 {
+		// the last parameter receives the (parenthesised) result of a call that reads it
+		lp := params[nparams-1]
+		body.Stmts = append(body.Stmts, Assign1(N(lp), &EParen{X: CallN("type", N(lp))}), CallSN("emit", Str("lastparam"), N(lp)))
+		g.cover("call:result-into-last-parameter")
+	}
 	n := g.R.Intn(3)
 	for i := 0; i < n && g.stmts < g.F.MaxStmts; i++ {
 		body.Stmts = append(body.Stmts, g.simpleStmt()...)
